@@ -11,7 +11,8 @@ def plan(tier):
     pl = [(PG.cancel_prog(1), 1, PT), (PG.cancel_two_threads(1), 1, PT),
           (PG.two_submitters(2, 0.05), 1, PT), (PG.two_submitters(1, None), 1, PT),
           (PG.resize_with_map(1, 2, 0.05), 1, PT), (PG.bursts(2, 0.05), 1, PT),
-          (PG.cancel_run(6, 1), 1, PT), (PG.cancel_run(3, 2), 1, PT)]
+          (PG.cancel_run(6, 1), 1, PT), (PG.cancel_run(3, 2), 1, PT),
+          (PG.submit_cancel_shutdown(1, True), 1, PT), (PG.cancel_prog(1), 2, dict(kinds=("P",), p_scope="parent:"))]
     combos = [(c, l) for c in (1, 2, 3, 4) for l in itertools.product(range(5), repeat=2)]
     combos += [(c, (n,)) for c in (1, 2, 3) for n in (0, 1, 3, 5)] + [(2, (3, 4, 2)), (1, (2, 2, 2))]
     deep = {(2, (3, 4)), (3, (4, 4)), (1, (2, 3)), (4, (4, 1)), (2, (5,)), (3, (3,)), (2, (3, 4, 2)),
